@@ -223,6 +223,64 @@ def checkpoint_case(rng):
         return {"checkpoint": True, "body": body, "x": x, "ok": False, "error": repr(ex)}
 
 
+def partial_notrace_cases(rng):
+    """a primitive registered as not traced for ONE node type only, with a rule for the other mode: the other mode's
+    enclosing trace still differentiates it; re-registration of rules replaces the table"""
+    from autograd.extend import register_notrace, VJPNode, JVPNode
+    out = []
+    x0 = float(rng.choice([1, 2, 3]))
+
+    def rec(name, ok, detail=None):
+        out.append({"checkpoint": False, "ok": bool(ok), "case": name, "detail": detail, "site": {"oracle": "extension", "configuration": name}})
+    try:
+        @primitive
+        def gate(x):
+            return x * x * x
+        defjvp(gate, lambda g, ans, x: g * 3.0 * x * x)
+        register_notrace(VJPNode, gate)            # reverse mode treats gate(...) as a constant
+        h = lambda x: grad(lambda y: y * gate(x * y))(1.0)     # = gate(x) for the inner reverse pass  # noqa: E731
+        val, tan = make_jvp(h)(x0)(1.0)
+        rec("notrace for VJPNode only, forward over reverse", float(val) == x0 ** 3 and float(tan) == 3.0 * x0 * x0, [float(val), float(tan)])
+        val2, tan2 = make_jvp(lambda x: gate(x) * x)(x0)(1.0)
+        rec("notrace for VJPNode only, plain forward", float(tan2) == 4.0 * x0 ** 3, float(tan2))
+        rec("notrace for VJPNode only, plain reverse is constant", float(grad(lambda x: gate(x) * x)(x0)) == x0 ** 3)
+
+        @primitive
+        def gate2(x):
+            return x * x * x
+        defvjp(gate2, lambda ans, x: lambda g: g * 3.0 * x * x)
+        register_notrace(JVPNode, gate2)           # forward mode treats gate2(...) as a constant
+        h2 = lambda x: make_jvp(lambda y: y * gate2(x * y))(1.0)(1.0)[1]   # = gate2(x)  # noqa: E731
+        rec("notrace for JVPNode only, reverse over forward", float(grad(h2)(x0)) == 3.0 * x0 * x0, float(grad(h2)(x0)))
+    except Exception as ex:
+        rec("partial notrace registration", False, repr(ex))
+    # re-registration replaces the rule table: a position that has no rule any more raises
+    try:
+        @primitive
+        def two(a, b):
+            return a * b
+        defvjp(two, lambda ans, a, b: lambda g: g * b, lambda ans, a, b: lambda g: g * a * 100.0)
+        defvjp(two, lambda ans, a, b: lambda g: g * b)                     # second registration: position 0 only
+        r0 = float(grad(two, 0)(2.0, 3.0))
+        try:
+            r1 = grad(two, 1)(2.0, 3.0)
+            rec("re-registration with fewer positions: the dropped position raises", False, "returned %r" % (r1,))
+        except NotImplementedError:
+            rec("re-registration with fewer positions: the dropped position raises", r0 == 3.0)
+        defvjp(two, None, lambda ans, a, b: lambda g: g * a)               # third: position 0 explicitly None
+        rec("re-registration: None replaces an earlier rule", float(grad(two, 0)(2.0, 3.0)) == 0.0 and float(grad(two, 1)(2.0, 3.0)) == 2.0)
+        defjvp(two, lambda g, ans, a, b: g * b, lambda g, ans, a, b: g * a * 100.0)
+        defjvp(two, lambda g, ans, a, b: g * b)
+        try:
+            r = make_jvp(lambda b: two(2.0, b))(3.0)(1.0)[1]
+            rec("re-registration of forward rules with fewer positions: the dropped position raises", False, "returned %r" % (r,))
+        except (NotImplementedError, KeyError):
+            rec("re-registration of forward rules with fewer positions: the dropped position raises", True)
+    except Exception as ex:
+        rec("re-registration", False, repr(ex))
+    return out
+
+
 def checkpoint_kw_case(rng):
     """a traced value handed to a checkpointed function BY KEYWORD: same value and derivative as the plain function, or a
     loud refusal"""
@@ -296,7 +354,7 @@ def main():
         out["jvp"].append(jvp_case(rng))
     for i in range(cfg["n_oracle"]):
         out["oracle"].append(two_level_case(rng))
-        for c in (checkpoint_case(rng), checkpoint_case_nary(rng)) + ((checkpoint_kw_case(rng),) if i == 0 else ()):
+        for c in (checkpoint_case(rng), checkpoint_case_nary(rng)) + ((checkpoint_kw_case(rng),) + tuple(partial_notrace_cases(rng)) if i == 0 else ()):
             if c:
                 out["oracle"].append(c)
     print(json.dumps(out))
